@@ -15,7 +15,7 @@ From Coq Require Import List Arith ZArith.
 Import ListNotations.
 From YP Require Import Base.Str Term.Term Unify.Unify Lang.Ast Comp.IR Comp.CompileBody Comp.CompileClause Sem.Res Sem.RefSem Sem.IRSem Sem.ExecMono
   Sem.Machine Sem.RunSem Sem.ClauseSem Sem.ProgramCorrect Sem.Native Sem.NativeThms Sem.NativeFacts Sem.NativeSource Sem.NativeExc Engine.RunBoundedM Engine.NativeMono
-  Unify.Bounded Sem.Fresh Sem.RenameSim Sem.NativeRename Sem.NativeChain Engine.BoundedMachine Engine.NativeChainMono.
+  Unify.Bounded Sem.Fresh Sem.RenameSim Sem.NativeRename Sem.NativeChain Sem.NativeChainExc Engine.BoundedMachine Engine.NativeChainMono.
 
 (* ---- sem_extensional: the answers of a body / of emitted code / of a whole engine depend on a predicate only through
         its answer function (no functional extensionality axiom) *)
@@ -501,6 +501,35 @@ Theorem C20_exception_at_the_chain : forall call ds1 f ds2 j args s,
 Proof. exact raising_member_at_the_chain. Qed.
 Print Assumptions C20_exception_at_the_chain.
 
+(* the chain engine with the exception OBJECT carried along (Sem/NativeChainExc.v; what the check evaluates): it erases to cquery,
+   also when built by a sequence of operations; and whatever property the engine's own exceptions and those raised by the Python
+   predicates that are chain members (or variadic) have, the exception that ends any query has it - chain_functions /
+   itertools.chain create, wrap or replace nothing *)
+Theorem C20_chain_engine_with_exceptions_refines : forall w n name args s,
+  er (cqueryE n w name args s) = cquery n (erase_cworld w) name args s.
+Proof. exact erase_cqueryE. Qed.
+Print Assumptions C20_chain_engine_with_exceptions_refines.
+
+Theorem C20_chain_engine_with_exceptions_built : forall ops n name args s,
+  er (cqueryE n (buildE cemptyE ops) name args s) = cquery n (build cempty (map erase_op ops)) name args s.
+Proof. exact erase_built_cqueryE. Qed.
+Print Assumptions C20_chain_engine_with_exceptions_built.
+
+Theorem C20_chain_exception_provenance : forall Q : exn -> Prop, Q XDepth -> Q XUnify -> Q XGoal -> Q XCode ->
+  forall w : cworldE,
+  (forall name k ds f args s e, ce_fix w name k = Some ds -> In (ENat f) ds -> snd (f args s) = Some e -> Q e) ->
+  (forall name f args s e, ce_var w name = Some f -> snd (f args s) = Some e -> Q e) ->
+  forall n name args s e, snd (cqueryE n w name args s) = Some e -> Q e.
+Proof. exact chain_exception_provenance. Qed.
+Print Assumptions C20_chain_exception_provenance.
+
+Theorem C20_chain_exception_unchanged : forall w tag,
+  (forall name k ds f args s e, ce_fix w name k = Some ds -> In (ENat f) ds -> snd (f args s) = Some e -> e = XPy tag) ->
+  (forall name f args s e, ce_var w name = Some f -> snd (f args s) = Some e -> e = XPy tag) ->
+  forall n name args s e, snd (cqueryE n w name args s) = Some e -> engine_exn e \/ e = XPy tag.
+Proof. exact chain_exception_unchanged. Qed.
+Print Assumptions C20_chain_exception_unchanged.
+
 (* non-vacuity: rules  c1(X) :- m(X).  c2(X) :- m(X), !.  c5(L) :- findall(X, m(X), L).  loaded first; then
    register_function(m, python predicate over {a, b} yielding True); then load_script(m(c). m(X) :- c2(X)., overwrite=False) *)
 Definition ch_rules : program :=
@@ -527,7 +556,10 @@ Example C20_chain_nonvacuous :
    ans 1 (cquery 6 (build cempty ch_py) (d "c5") [TVar 0] (st0 1)) = ([[mk_list [ta; tb; tc]]], false) /\
    (* the Python predicate (member 0 of the chain) raises instead of its answer number 1: a, then the exception; m(c) is not tried *)
    ans 1 (cquery 6 (with_raising_member (build cempty ch_py) (d "m") 1 0 1) (d "c1") [TVar 0] (st0 1)) = ([[ta]], true) /\
-   ans 1 (cquery 6 (with_raising_member (build cempty ch_py) (d "m") 1 0 1) (d "c2") [TVar 0] (st0 1)) = ([[ta]], false)).
+   ans 1 (cquery 6 (with_raising_member (build cempty ch_py) (d "m") 1 0 1) (d "c2") [TVar 0] (st0 1)) = ([[ta]], false) /\
+   (* with the exception object: the Python predicate raises XPy 7 instead of its answer number 1; three frames up it is XPy 7 *)
+   (let r := cqueryE 6 (buildE cemptyE [ELoad ch_ir true; EReg (d "m") 1 (raisingE (liftE ch_m) 1 7); ELoad [ch_f ch_later] false])
+               (d "c1") [TVar 0] (st0 1) in (map (answer_of 1) (fst r), snd r) = ([[ta]], Some (XPy 7)))).
 Proof.
   split.
   { constructor; [apply twin_same|]. constructor; [|constructor; [apply twin_same|constructor]].
